@@ -40,6 +40,24 @@ A sample budget that runs out without quiescence is INCONCLUSIVE.
                    entry checks before): lost wake-up
     racing         created before the link loop came back, bound while/after terminate() ran
     new            created after run() came back
+Frame-reject cases ("fr" in the descriptor): the same pair, causes and MAC modes, but the link is ended only after
+every end has had frame-reject events on data link connections that have a thread blocked in a socket call.  The
+hostile peer is a thread of the other end with a RAW access point socket (public API) that sends, once it sees the
+victim thread inside its wait,
+    frmr-received    FRMR for the connection
+    frmr-sent-ns     I PDU with an out-of-sequence N(S)            (the local side answers FRMR and shuts the socket)
+    frmr-sent-miu    I PDU larger than the receive MIU of the socket                  (same)
+    ui-on-dlc / unknown-on-dlc   a non connection-mode PDU (UI, reserved PDU type 1011) addressed to the SAP pair of
+                     the connection (same, flag W; an SNL/PAX/AGF/DPS PDU with such addresses does not get that far:
+                     it fails to decode, which ends the link)
+    dm-on-dlc / cc-on-dlc    DM / CC for an established connection (nfcpy ignores them)
+to victims blocked in recv / poll recv / poll acks / send on a closed window / poll send on an established
+connection, in accept() on a listening socket and in connect() in progress (there: ui, unknown, frmr, dm).  k exchanges
+(0..20) after the events have taken effect the link ends by the cause of the case.  The oracle is unchanged: a
+victim may return at the reject (what nfcpy does) or when the link ends, it must not stay blocked; the cause in
+the signature becomes <event>+<cause>.  After its first call returned a victim issues the same call once more on
+the (now shut down) socket, which has to come back too.
+
 MAC modes: "fake" (PDU level pipe, exchange/activate/deactivate of the real nfc.dep instances replaced), "dep"
 (only activate replaced: the real nfc.dep exchange()/deactivate() run over a frame level air) and "udp" (complete
 path: real ContactlessFrontend.connect(llcp=...), nfc.clf.udp driver, nfc.dep, over vf.sim.fakenet).  MAC time-outs are
@@ -80,7 +98,12 @@ RULE = ("case = (cause of termination x end that experiences it x deactivate var
         "thread and n enumerated); 1 of 10 cases runs the real nfc.dep exchange()/deactivate() over a frame level air "
         "instead of the PDU level FakeMac and 1 of 10 the complete path (two real ContactlessFrontend.connect(llcp=..) "
         "calls, real nfc.clf.udp driver and nfc.dep over the in-memory FakeNet with the fault injected at socket level); "
-        "the other schedules are randomised by yield injection. A case is distinct by "
+        "the other schedules are randomised by yield injection. Frame-reject cases (2 per shard quick, 12 thorough) "
+        "add: 8 causes x delay k in (0,1,3,8,20) exchanges, enumerated, x 10 victims per end out of 43 enumerated "
+        "(blocked call x frame-reject event) combinations - recv / poll recv / poll acks / send on a closed window / "
+        "poll send on an established connection, accept, connect in progress x FRMR received, I PDU with wrong N(S), "
+        "oversized I PDU, UI, PDU of reserved type 1011, DM, CC sent by a raw access point of the peer when the victim is seen waiting - "
+        "and end the link k exchanges after the events took effect. A case is distinct by "
         "(descriptor, observed schedule signature) and non-trivial if both link loops ended, every thread was "
         "classified and the post-termination calls (every kind, old sockets and new sockets) were issued")
 ASSUMPTIONS = [
@@ -103,6 +126,11 @@ ASSUMPTIONS = [
     "raised to the thread that made the bad call are accepted for that one call (argument errors); if the stack "
     "refuses the call or the link is still up 2 s later the case goes on with a local terminate request and is "
     "labelled 'local' (this wait selects the cause that is exercised, it decides no verdict)",
+    "frame-reject cases: the hostile PDUs are sent through a RAW access point socket of the peer's real stack; "
+    "the harness reads the victim thread's stack (is it inside a wait below nfc?) and the state attribute of the "
+    "victim socket's transmission control object only to time the injection and the link end and for the coverage "
+    "counters fr_*; bounded waits there (4 s for the victims to block, 3 s for the effect) select what is "
+    "exercised and decide no verdict",
     "a thread is 'blocked forever' when, after both link loops have ended and all watched threads are quiescent, it "
     "sits in an untimed Condition.wait called from nfc code whose waiter lock nobody has released; no other "
     "workload thread shares its socket (except the thread that later issues close(), after the verdict)",
@@ -115,12 +143,21 @@ REQUIRED = ["terminations", "terminations/local", "terminations/remote", "termin
             "unencodable_cases_mac/dep", "unencodable_cases_mac/udp", "blocked_at_term_calls",
             "after_calls_old", "after_calls_new", "service_threads_started", "service_threads_exited",
             "quiescence_waits", "directed_holds_reached_before_termination", "cases_mac_dep", "cases_mac_fake",
-            "cases_mac_udp"]
+            "cases_mac_udp",
+            # frame-reject class: event delivered to a victim that was seen blocked in its call, and (fr_rejects) the
+            # victim came back or its socket was shut down before the termination of the link began
+            "fr_cases", "fr_events/frmr-received", "fr_events/frmr-sent-ns", "fr_events/frmr-sent-miu",
+            "fr_events/ui-on-dlc", "fr_events/unknown-on-dlc", "fr_events/dm-on-dlc",
+            "fr_rejects/frmr-received", "fr_rejects/frmr-sent-ns", "fr_rejects/frmr-sent-miu", "fr_rejects/ui-on-dlc",
+            "fr_victims/recv", "fr_victims/poll-recv", "fr_victims/poll-acks", "fr_victims/send", "fr_victims/accept",
+            "fr_victims/connect", "fr_terminations/local", "fr_terminations/remote", "fr_terminations/disrupt",
+            "fr_terminations/ioerror-deact-noop", "fr_terminations/ioerror-deact-raises"]
 
 DLC = nfc.llcp.DATA_LINK_CONNECTION
 LDL = nfc.llcp.LOGICAL_DATA_LINK
 RAW = L.RAW_ACCESS_POINT
 SINK, DRAIN, NOACC, LDLSINK = 60, 61, 62, 63
+FRSINK, FRNOACC = 58, 59                       # frame-reject cases: accept-and-hold / never accepting listener
 NA_NAME = b"urn:nfc:sn:vf-na"
 HOLE = b"urn:nfc:sn:vf-hole"
 LATE_NAME = b"urn:nfc:sn:vf-late"
@@ -191,12 +228,12 @@ K_MIN, K_MAX = 2, 40
 
 def plan(tier, seed):
     if tier == "quick":
-        shards, per = 16, 20
+        shards, per, nfr = 16, 20, 2
     else:
-        shards, per = 48, 120
+        shards, per, nfr = 48, 120, 12
     out = []
     for s in range(shards):
-        d = {"n": per, "stride": shards, "first": s}
+        d = {"n": per, "stride": shards, "first": s, "nfr": nfr}
         if tier != "quick":
             d["timeout"] = 1500
         out.append(d)
@@ -257,6 +294,44 @@ def make_desc(i, seed, rng):
     return d
 
 
+# frame-reject cases ----------------------------------------------------------------------------------------
+FR_CAUSES = CAUSES[:7] + [("unencodable-ui", "A", "noop")]
+FR_DELAYS = (0, 1, 3, 8, 20)                   # exchanges between "events took effect" and the end of the link
+FR_EVENTS = ("frmr-received", "frmr-sent-ns", "frmr-sent-miu", "ui-on-dlc", "unknown-on-dlc", "dm-on-dlc", "cc-on-dlc")
+FR_ESTABLISHED = ("recv", "poll-recv", "poll-acks", "send", "poll-send")
+FR_COMBOS = [[k, e] for e in FR_EVENTS for k in FR_ESTABLISHED] + \
+            [[k, e] for e in ("ui-on-dlc", "unknown-on-dlc", "frmr-received", "dm-on-dlc") for k in ("accept", "connect")]
+FR_PER_END = 10
+
+
+def make_fr_desc(f, seed, rng):
+    """f-th frame-reject case: cause x delay and the victims (blocked call x event) enumerated, the rest drawn"""
+    j = f + seed * 7919
+    cause, end, deact = FR_CAUSES[j % len(FR_CAUSES)]
+    k = FR_DELAYS[(j // len(FR_CAUSES)) % len(FR_DELAYS)]
+    roles = []
+    for name in ROLE_NAMES:
+        r = rng.random()
+        if r < 0.5 or name == "resolve-hole":
+            continue
+        for e in ("A" if r < 0.68 else ("B" if r < 0.86 else "AB")):
+            roles.append([name, e])
+    rng.shuffle(roles)
+    nc = len(FR_COMBOS)
+    fr = {e: [FR_COMBOS[(j * 2 * FR_PER_END + o + i) % nc] for i in range(FR_PER_END)]
+          for e, o in (("A", 0), ("B", FR_PER_END))}
+    d = {"cause": cause, "end": end, "deact": deact, "k": k, "roles": roles, "fr": fr,
+         "yield_p": rng.choice([0.0, 0.01, 0.02, 0.05]), "yield_seed": rng.randrange(1 << 30),
+         "order_seed": rng.randrange(1 << 30), "lto": 100, "agf": rng.random() < 0.7,
+         "stagger": rng.choice([0, 0, 1, 3]), "servers": rng.choice(["AB", "AB", "A", "B"])}
+    if cause in UNENC:
+        d["how"] = UNENC_HOW[cause][(j // len(FR_CAUSES)) % 2]
+    if f % 8 in (3, 7):
+        d["mac"] = "dep" if f % 8 == 3 else "udp"
+        d["lto"] = 250
+    return d
+
+
 # =========================================================================================================
 # case context, sockets, workers
 class Ctx:
@@ -295,6 +370,18 @@ class Ctx:
         self.unenc_rejected = None           # the socket layer refused the call (argument error to the caller)
         self.unenc_fallback = False          # the call did not end the link: local terminate request instead
         self.local_term = None               # callable(end): turn this end's terminate callback true
+        self.fr = desc.get("fr")             # frame-reject case: {end: [[kind, event], ...]}
+        self.fr_workers = []                 # the victim threads
+        self.fr_lock = threading.Lock()
+        self.fr_pending = 2                  # injectors that have not finished
+        self.fr_ready_at = None              # exchange count at which all events had taken effect
+        self.xn = 0                          # exchanges seen by the MAC hook (initiator side)
+
+    def due(self, n):
+        """the planned end of the link is due: at exchange k, or (frame-reject cases) k exchanges after the events"""
+        if self.fr is None:
+            return n >= self.desc["k"]
+        return self.fr_ready_at is not None and self.xn >= self.fr_ready_at + self.desc["k"]
 
     def llc(self, end):
         return self.llcs[end] if end in self.llcs else (self.pair.a if end == "A" else self.pair.b)
@@ -483,12 +570,15 @@ def build_infra(ctx, end):
     s.sock.bind(LDLSINK)
     s.mark_bound()
     inf["ldl"] = s
+    if ctx.fr is not None:
+        inf["frsink"] = lsock(FRSINK, 16)
+        inf["frnoacc"] = lsock(FRNOACC, 16)
     del llc
 
-    def sink_body(w):
+    def sink_body(w, name="sink"):
         held = []
         for i in range(64):
-            c = w.accept(inf["sink"])
+            c = w.accept(inf[name])
             if c is None:
                 break
             if i % 3 == 2:
@@ -516,8 +606,11 @@ def build_infra(ctx, end):
             ok, v = w.do("recvfrom", inf["ldl"], inf["ldl"].sock.recvfrom)
             if not ok or v == (None, None):
                 break
-    return [Worker(ctx, end, "sink", sink_body, 1), Worker(ctx, end, "drain", drain_body, 1),
-            Worker(ctx, end, "ldl-sink", ldl_body, 1)]
+    out = [Worker(ctx, end, "sink", sink_body, 1), Worker(ctx, end, "drain", drain_body, 1),
+           Worker(ctx, end, "ldl-sink", ldl_body, 1)]
+    if ctx.fr is not None:
+        out.append(Worker(ctx, end, "fr-sink", lambda w: sink_body(w, "frsink"), 1))
+    return out
 
 
 # =========================================================================================================
@@ -740,6 +833,135 @@ def unenc_guard(ctx):
             return
         _real_time.sleep(0.005)
     unenc_fallback(ctx)
+
+
+# ---- frame-reject cases: victims (blocked call on a connection that suffers the event) and the hostile peer ------
+def fr_victim(kind, event):
+    def body(w):
+        st = w.fr
+        try:
+            s = w.new_sock(DLC)
+            if kind == "accept":
+                if not (s and w.bind(s) and w.do("listen", s, s.sock.listen, 2)[0]):
+                    return
+                call = s.sock.accept
+            elif kind == "connect":
+                if not (s and w.bind(s)):
+                    return
+                call = lambda: s.sock.connect(FRNOACC)                       # noqa: E731
+            else:
+                if not (s and w.bind(s) and w.connect(s, FRSINK)):
+                    return
+                if kind == "send":               # RW(remote) is 1 and the peer never reads: the next send() blocks
+                    ok, v = w.do("send", s, s.sock.send, PAY)
+                    if not (ok and v is True):
+                        return
+                elif kind == "poll-send":        # waits until the link loop has taken the I PDU (short)
+                    if not w.do("send-nb", s, s.sock.send, PAY, nfc.llcp.MSG_DONTWAIT)[0]:
+                        return
+                call = {"recv": s.sock.recv, "poll-recv": lambda: s.sock.poll("recv"),
+                        "poll-acks": lambda: s.sock.poll("acks"), "send": lambda: s.sock.send(PAY),
+                        "poll-send": lambda: s.sock.poll("send")}[kind]
+            ok, addr = w.do("getsockname", s, s.sock.getsockname)
+            if not ok or addr is None:
+                return
+            st["sock"], st["addr"] = s, addr
+            st["state"] = "armed"
+            w.do(kind, s, call)                  # the call that is blocked when the event arrives
+            w.do(kind, s, call)                  # once more on the same socket (rejected, or the link has ended)
+        finally:
+            if st["state"] == "init":
+                st["state"] = "skip"
+    return body
+
+
+def fr_pdu(kind, event, addr):
+    ssap = FRNOACC if kind == "connect" else (3 if kind == "accept" else FRSINK)
+    if event == "frmr-received":
+        return P.FrameReject(addr, ssap, flags=1, ptype=0b1100)
+    if event == "frmr-sent-ns":
+        return P.Information(addr, ssap, ns=5, nr=0, data=b"vf-out-of-sequence")
+    if event == "frmr-sent-miu":
+        return P.Information(addr, ssap, ns=0, nr=0, data=bytes(150))       # receive MIU of the socket is 128
+    if event == "ui-on-dlc":
+        return P.UnnumberedInformation(addr, ssap, data=b"vf-ui-on-connection")
+    if event == "unknown-on-dlc":
+        return P.UnknownProtocolDataUnit(0b1011, addr, ssap, b"vf-reserved-pdu-type")
+    if event == "dm-on-dlc":
+        return P.DisconnectedMode(addr, ssap, reason=0)
+    return P.ConnectionComplete(addr, ssap, miu=128, rw=1)
+
+
+def fr_injector(w):
+    """the hostile peer: a RAW access point of this end sends the frame-reject events to the victims of the other
+    end once they are seen waiting inside nfc; all waits are bounded and only select what is exercised"""
+    ctx = w.ctx
+    victims = [v for v in ctx.fr_workers if v.end == w.peer]
+
+    def link_up():
+        return all(ctx.term[e] is None and ctx.ended[e] is None for e in "AB")
+    try:
+        s = w.new_sock(RAW)
+        if not (s and w.bind(s)):
+            return
+        pend, done = list(victims), []
+
+        def inject(v, blocked):
+            st = v.fr
+            st["blocked"], st["rec"] = blocked, v.cur
+            ok, val = w.do("raw-send", s, s.sock.send, fr_pdu(st["kind"], st["event"], st["addr"]),
+                           nfc.llcp.MSG_DONTWAIT)
+            if ok:
+                st["injected"] = next(ctx.ticks)
+                st["xn"] = ctx.xn
+                v.fr_event = st["event"]
+                done.append(v)
+        t_end = _real_time.time() + 4.0
+        while pend and link_up() and _real_time.time() < t_end:
+            frames = sys._current_frames()
+            for v in list(pend):
+                st = v.fr
+                if st["state"] == "skip" or not v.is_alive():
+                    pend.remove(v)
+                    continue
+                cur = v.cur
+                if st["state"] != "armed":
+                    continue
+                in_call = cur is not None and cur[0] == st["kind"]
+                info = watch.classify(frames[v.ident]) if v.ident in frames else None
+                waits = in_call and info is not None and info.kind == "cond-wait" and info.in_nfc
+                if waits or st["kind"] == "poll-send":       # poll('send') waits for one dequeue only: best effort
+                    pend.remove(v)
+                    inject(v, waits)
+            del frames
+            _real_time.sleep(0.003)
+        for v in pend:
+            if v.fr["state"] == "armed" and v.is_alive() and link_up():
+                inject(v, False)
+        # the events have taken effect: the victim came back, its socket is shut down, or (events the stack
+        # ignores) the PDU left this end six exchanges ago
+        t_end = _real_time.time() + 3.0
+        raw = s.sock._tco
+        while done and link_up() and _real_time.time() < t_end:
+            for v in list(done):
+                st = v.fr
+                rec = st["rec"]
+                if st["blocked"] and rec is not None and rec[3] is not None:
+                    st["effect"] = "returned"
+                elif st["sock"].sock._tco.state.SHUTDOWN:
+                    st["effect"] = "shutdown"
+                elif len(raw.send_queue) == 0 and ctx.xn >= st["xn"] + 6:
+                    st["effect"] = "delivered"
+                else:
+                    continue
+                st["effect_before_term"] = ctx.term[v.end] is None
+                done.remove(v)
+            _real_time.sleep(0.003)
+    finally:
+        with ctx.fr_lock:
+            ctx.fr_pending -= 1
+            if ctx.fr_pending <= 0:
+                ctx.fr_ready_at = ctx.xn
 
 
 ROLES = {
@@ -1076,8 +1298,8 @@ class AirClf:
         if self.side == "I":
             with pipe.lock:
                 pipe.exchanges += 1
-                n = pipe.exchanges
-            if n >= k and not ctx.triggered:
+                n = ctx.xn = pipe.exchanges
+            if ctx.due(n) and not ctx.triggered:
                 if cause == "local" and end == "A":
                     pair.term_a = True
                     ctx.triggered = True
@@ -1099,11 +1321,11 @@ class AirClf:
             pipe.i2t.put(bytes(data))
             return bytearray(wait_frame(pipe.t2i, ctx, pipe, "B", sent_q=pipe.i2t))
         self.t_n += 1
-        if cause == "ioerror" and end == "B" and self.t_n >= k and not ctx.triggered:
+        if cause == "ioerror" and end == "B" and ctx.due(self.t_n) and not ctx.triggered:
             pipe.broken = True
             ctx.dead["B"] = True
             ctx.triggered = True
-        if cause in UNENC and end == "B" and self.t_n >= k and not ctx.triggered:
+        if cause in UNENC and end == "B" and ctx.due(self.t_n) and not ctx.triggered:
             ctx.triggered = True
             ctx.fire.set()
         if ctx.dead["B"]:
@@ -1114,7 +1336,7 @@ class AirClf:
         if timeout is not None and timeout <= 0:
             return None                       # like the drivers: send only
         r = bytearray(wait_frame(pipe.i2t, ctx, pipe, "A"))
-        if cause == "local" and end == "B" and self.t_n >= k and not ctx.triggered:
+        if cause == "local" and end == "B" and ctx.due(self.t_n) and not ctx.triggered:
             pair.term_b = True
             ctx.triggered = True
         return r
@@ -1171,8 +1393,8 @@ def extend_macs(pair, ctx):
     def i_exchange(self, data, timeout):
         with pipe.lock:
             pipe.exchanges += 1
-            n = pipe.exchanges
-        if n >= k and not ctx.triggered:
+            n = ctx.xn = pipe.exchanges
+        if ctx.due(n) and not ctx.triggered:
             if cause == "local" and end == "A":
                 pair.term_a = True
                 ctx.triggered = True
@@ -1198,11 +1420,11 @@ def extend_macs(pair, ctx):
         st["t_n"] += 1
         if data is not None:
             st["owes"] = False
-        if cause == "ioerror" and end == "B" and st["t_n"] >= k and not ctx.triggered:
+        if cause == "ioerror" and end == "B" and ctx.due(st["t_n"]) and not ctx.triggered:
             pipe.broken = True
             ctx.dead["B"] = True
             ctx.triggered = True
-        if cause in UNENC and end == "B" and st["t_n"] >= k and not ctx.triggered:
+        if cause in UNENC and end == "B" and ctx.due(st["t_n"]) and not ctx.triggered:
             ctx.triggered = True
             ctx.fire.set()
         if ctx.dead["B"]:
@@ -1214,7 +1436,7 @@ def extend_macs(pair, ctx):
             pipe.t2i.put(bytes(data))
         r = bytearray(hole_filter(st["t_n"], wait_frame(pipe.i2t, ctx, pipe, "A")))
         st["owes"] = True
-        if cause == "local" and end == "B" and st["t_n"] >= k and not ctx.triggered:
+        if cause == "local" and end == "B" and ctx.due(st["t_n"]) and not ctx.triggered:
             pair.term_b = True
             ctx.triggered = True
         return r
@@ -1329,6 +1551,8 @@ def flag_blocked(ctx, res, th, info, phase):
         end = "A" if any(th is s or _created_by(ctx, th, s) for s in ctx.servers if s._vf_end == "A") else "B"
         kind, age, who = service_kind(info), "old", "service thread " + th.name
     cause = ctx.cause_at(end)
+    if getattr(th, "fr_event", None):
+        cause = "%s+%s" % (th.fr_event, cause)      # its connection suffered this frame-reject event before
     if not info.blocked_forever_in_nfc():
         return False
     if age == "old":
@@ -1403,6 +1627,16 @@ def start_roles(ctx, desc):
     if desc["cause"] in UNENC:
         Worker(ctx, desc["end"], "unencodable", r_unencodable, 1).start()
         threading.Thread(target=unenc_guard, args=(ctx,), name="vf-unenc-guard", daemon=True).start()
+    if ctx.fr is not None:
+        for e in "AB":
+            for kind, event in ctx.fr[e]:
+                w = Worker(ctx, e, "fr-%s-%s" % (kind, event), fr_victim(kind, event), 1)
+                w.fr = {"kind": kind, "event": event, "state": "init", "sock": None}
+                ctx.fr_workers.append(w)
+        for w in ctx.fr_workers:
+            w.start()
+        for e in "AB":
+            Worker(ctx, e, "fr-inject", fr_injector, 1).start()
     for i, (name, e) in enumerate(desc["roles"]):
         Worker(ctx, e, name, ROLES[name], 1).start()
         if stag and i % stag == 0:
@@ -1548,7 +1782,8 @@ def run_case_udp(desc, env):
         p = f.payload
         if f.to_listener and p and (bytes(p[1:3]) == b"\xd4\x06" or bytes(p[2:4]) == b"\xd4\x06"):
             st["n"] += 1
-            if st["n"] >= k and not ctx.triggered and all(st["connected"].values()):
+            ctx.xn = st["n"]
+            if ctx.due(st["n"]) and not ctx.triggered and all(st["connected"].values()):
                 ctx.triggered = True
                 if cause == "local":
                     st["term"][end] = True
@@ -1716,6 +1951,39 @@ def account(ctx, res):
                                    "%s: %s on a %s socket left with an exception that is not nfc.llcp.Error after %s: %s"
                                    % (w.name, kind, age, cause, text[-300:]),
                                    {"call": kind, "socket": age, "cause": cause}))
+    effective = {"A": 0, "B": 0}
+    for w in ctx.fr_workers:
+        st = w.fr
+        kind, event = st["kind"], st["event"]
+        if not st.get("injected"):
+            res.count("fr_victims_without_event/" + st["state"])
+            continue
+        res.count("fr_injected")
+        if not st["blocked"]:
+            res.count("fr_victims_not_seen_blocked/" + kind)
+            continue
+        if st.get("effect") and st.get("effect_before_term"):
+            effective[w.end] += 1
+            res.count("fr_events/" + event)
+            res.count("fr_victims/" + kind)
+            res.count("fr_effect/" + st["effect"])
+            res.see("fr_combinations", "%s/%s" % (kind, event))
+            if st["effect"] in ("returned", "shutdown"):
+                res.count("fr_rejects/" + event)
+        rec, term = st["rec"], ctx.term[w.end]
+        if rec[3] is None:
+            res.count("fr_blocked_call/never-returned")
+        elif term is None or rec[3] < term:
+            res.count("fr_blocked_call/returned-at-the-event")
+            res.see("fr_outcomes_at_the_event", "%s/%s:%s" % (kind, event, rec[4].split("@")[0]))
+        else:
+            res.count("fr_blocked_call/returned-when-the-link-ended")
+    if ctx.fr is not None and ctx.triggered and sum(effective.values()):
+        res.count("fr_cases")
+        res.see("fr_delay_k", ctx.desc["k"])
+        for e in "AB":
+            if effective[e] and ctx.term[e] is not None:
+                res.count("fr_terminations/" + ctx.cause_at(e))
     for th, es in _uncaught[ctx.uncaught_mark:]:
         res.see("uncaught_in_thread", "%s %s" % ("service" if not isinstance(th, Worker) else "worker", es))
         res.count("uncaught_exceptions_in_threads")
@@ -1799,6 +2067,10 @@ def run(desc, R, rng):
             d = make_desc(i, int(desc.get("seed", 0)), rng)
             evaluate(d, env, R)
             R.max("live_threads_in_shard", threading.active_count() - base)
+        for j in range(desc.get("nfr", 0)):
+            f = desc["first"] + j * desc["stride"]
+            evaluate(make_fr_desc(f, int(desc.get("seed", 0)), rng), env, R)
+            R.max("live_threads_in_shard", threading.active_count() - base)
         R.sample({"last_case": {k: d[k] for k in ("cause", "end", "deact", "k", "yield_p", "agf")},
                   "roles": len(d["roles"])})
     finally:
@@ -1828,9 +2100,12 @@ if __name__ == "__main__":                   # debugging: python -m vf.props.c09
     if arg.startswith("{"):
         descs = [json.loads(arg)]
     else:
+        mk = make_desc
+        if arg.startswith("fr"):
+            mk, arg = make_fr_desc, arg[2:]
         lo, _, hi = arg.partition(":")
         rng = random.Random(1)
-        descs = [make_desc(i, 0, rng) for i in range(int(lo), int(hi or int(lo) + 1))]
+        descs = [mk(i, 0, rng) for i in range(int(lo), int(hi or int(lo) + 1))]
     for d in descs:
         t0 = time.time()
         sigs = evaluate(d, env, R)
